@@ -29,12 +29,16 @@ static int compare_int64(const void* a, const void* b) {
     return (va > vb) - (va < vb);
 }
 
+/* Result of a floating-point comparison in which a NaN is involved */
+#define COMPARE_UNORDERED 2
+
 static int compare_float(const void* a, const void* b) {
     float va = *(const float*)a;
     float vb = *(const float*)b;
     if (va < vb) return -1;
     if (va > vb) return 1;
-    return 0;
+    if (va == vb) return 0;
+    return COMPARE_UNORDERED;
 }
 
 static int compare_double(const void* a, const void* b) {
@@ -42,7 +46,8 @@ static int compare_double(const void* a, const void* b) {
     double vb = *(const double*)b;
     if (va < vb) return -1;
     if (va > vb) return 1;
-    return 0;
+    if (va == vb) return 0;
+    return COMPARE_UNORDERED;
 }
 
 static int compare_bytes(const void* a, size_t a_len, const void* b, size_t b_len) {
@@ -195,6 +200,11 @@ carquet_status_t carquet_reader_row_group_matches(
                                 stats.max_value, (size_t)stats.max_value_size);
     }
 
+    /* A NaN (in the probe or in the statistics) orders nothing: cannot filter */
+    if (cmp_min == COMPARE_UNORDERED || cmp_max == COMPARE_UNORDERED) {
+        return CARQUET_OK;
+    }
+
     /*
      * Determine if row group can be skipped based on comparison:
      *
@@ -217,8 +227,10 @@ carquet_status_t carquet_reader_row_group_matches(
 
         case CARQUET_COMPARE_NE:
             /* value != x: skip only if all values equal x */
-            if (cmp_min == 0 && cmp_max == 0) {
-                /* min == max == value, all values equal the search value */
+            if (cmp_min == 0 && cmp_max == 0 &&
+                type != CARQUET_PHYSICAL_FLOAT && type != CARQUET_PHYSICAL_DOUBLE) {
+                /* min == max == value, all values equal the search value
+                 * (floating-point columns may also hold NaN, which min/max never show) */
                 *might_match = false;
             }
             break;
